@@ -1057,7 +1057,8 @@ def det_replay(ctx, rep):
             if o["zs"]:
                 stats["improvements_compared"] += len(o["zs"])
                 if st["zs"] != o["zs"]:
-                    rep.disagree("Det.outOf ~ _eval_improvement_ (deterministic: fval - y)", f"iteration {k}: derived poll improvements {st['zs'][:4]} observed {o['zs'][:4]}; {tag}", case)
+                    rep.disagree("Det.outOf ~ _eval_improvement_ (deterministic: fval - y)", f"iteration {k}: derived poll improvements {st['zs'][:4]} observed {o['zs'][:4]}; {tag}",
+                                 dict(case, iter_hint=int(it["start"]["it"]) + 1, calls_hint=int(it["start"]["fc"]) + len(it["evals"])))
                     break
             last = k == len(iters) - 1
             if not last:
@@ -1065,7 +1066,8 @@ def det_replay(ctx, rep):
                 mod = (c["fc"], c["nRec"], c["sc"], c["ss"], c["msi"], c["pollIter"], c["finished"], st["incU"], st["incF"])
                 obsv = (nxt["fc"], nxt["nrec"], nxt["sc"], nxt["ss"], nxt["msi"], nxt["it"], False, enc_pt(nxt["u"]), enc(nxt["fval"]))
                 if mod != obsv:
-                    rep.disagree("Det.step ~ optimize loop (deterministic run)", f"iteration {k}: model (fc,nRec,sc,ss,msi,iter,finished,u,fval)={mod} observed {obsv}; {tag}", case)
+                    rep.disagree("Det.step ~ optimize loop (deterministic run)", f"iteration {k}: model (fc,nRec,sc,ss,msi,iter,finished,u,fval)={mod} observed {obsv}; {tag}",
+                                 dict(case, iter_hint=int(it["start"]["it"]) + 1, calls_hint=int(it["start"]["fc"]) + len(it["evals"])))
                     break
             elif completed:
                 f = t["final"]
